@@ -41,7 +41,7 @@ theorem list_space_counterexample :
 
 /-- the guard "non-empty" is forced: an empty string is not stored at all -/
 theorem empty_string_dropped (k : Kind) : deserDict k (.str []) = none := by
-  cases k <;> rfl
+  simp [deserDict, blank]
 
 /-! ### obligations over the regenerated schema tables -/
 
